@@ -31,11 +31,11 @@ def shard_fn(shard, nshards, seed, tier, exe, npairs):
     cases, meta = [], {}
     n = 0
 
-    def add(D, text, chunk, kind, group=None):
+    def add(D, text, chunk, kind, group=None, flags=None):
         nonlocal n
         cid = "%d.%d" % (shard, n)
         n += 1
-        cases.append((cid, ["PD %d %d %d x%s" % (rng.choice([0, 0, 1]), D, chunk, text.hex())]))
+        cases.append((cid, ["PD %d %d %d x%s" % (rng.choice([0, 0, 1]) if flags is None else flags, D, chunk, text.hex())]))
         meta[cid] = (D, text, chunk, kind, group)
 
     Ds = [d for d in list(range(1, 65)) + [100, 1000] if d % nshards == shard % nshards or nshards == 1]
@@ -49,6 +49,16 @@ def shard_fn(shard, nshards, seed, tier, exe, npairs):
                     for leaf in ("0", "[]", "{}", '"s"', "null"):
                         if rng.random() < (0.35 if tier == "quick" else 1.0):
                             add(D, nest(rng, m, shape, leaf, via), rng.choice([0, 0, 1, 3]), "boundary")
+                    if rng.random() < (0.25 if tier == "quick" else 1.0):
+                        # the same boundary with a leaf only the default (non-strict) mode knows: the limit applies to it exactly as to "0"
+                        leaf = rng.choice(["Infinity", "infinity", "-Infinity", "NaN", "nan", "nUll", "TRUE", "'s'", "01"])
+                        ref = nest(rng, m, shape if shape != "r" else "x", "0", via)
+                        t = nest(rng, m, shape if shape != "r" else "x", leaf, via)
+                        add(D, t, rng.choice([0, 0, 1, 3]), "boundary-ext", ("as", ref, leaf), flags=0)
+                    if rng.random() < (0.25 if tier == "quick" else 1.0):
+                        # malformed right at / beyond the limit (missing value, stray separator or closer): any error, but no memory error
+                        leaf = rng.choice(["", ",", "}", "]", ":", "x", '"unterminated', "[,", '{"a":}', '{"a":,', '{"a"}', "{,", "[}"])
+                        add(D, nest(rng, m, shape, "0", via).replace(b"0", leaf.encode(), 1) if leaf != "0" else b"", rng.choice([0, 0, 1]), "boundary-malformed", ("malformed",))
             # resource monotonicity: same D and shape, nesting D+1 vs far above D -- both stop at the same level
             g = "%d/%s" % (D, shape)
             if shape != "r":
@@ -153,7 +163,18 @@ def shard_fn(shard, nshards, seed, tier, exe, npairs):
         err, end, nonnull = int(f[1]), int(f[2]), int(f[3])
         peak, stack = int(f[4].split("=")[1]), int(f[5].split("=")[1])
         sh.evaluations += 1
-        exp = first_too_deep(text, D)
+        if kind == "boundary-malformed":
+            sh.count("kind." + kind)
+            if err == 0 and text.count(b"[") + text.count(b"{") >= D + 1:
+                sh.violation("C15/accepts-beyond-limit", "malformed text nested beyond limit %d accepted" % D, {"driver": "jcdrv", "variant": "asan", "script": cmdmap[cid], "depth_limit": D})
+            sh.nontrivial(b"%d/" % D + text)
+            continue
+        if kind == "boundary-ext":
+            # expectation computed on the sibling text whose leaf is "0": same containers, same offsets up to the leaf
+            exp = first_too_deep(group[1], D)
+            group = None
+        else:
+            exp = first_too_deep(text, D)
         rep = {"driver": "jcdrv", "variant": "asan", "script": [c[:200000] for c in cmdmap[cid]], "depth_limit": D, "text": text[:300].decode("latin1"),
                "expected": "accept" if exp is None else "error_depth at %d" % exp, "observed": ln[:300]}
         ctx = "D=%d %s chunk=%d" % (D, kind, chunk)
@@ -161,7 +182,7 @@ def shard_fn(shard, nshards, seed, tier, exe, npairs):
             sh.count("accepted_expected")
             if err != 0:
                 key = "C15/rejects-within-limit" if err == E_DEPTH else "C15/within-limit-other-error"
-                sh.violation(key, "document with max enclosure %d rejected (err %d at %d) under limit %d" % (refjson.max_depth(refjson.parse(text)), err, end, D), rep)
+                sh.violation(key, "document with max enclosure %d rejected (err %d at %d) under limit %d" % (text.count(b"[") + text.count(b"{"), err, end, D), rep)
         else:
             sh.count("rejected_expected")
             if err == 0:
